@@ -298,3 +298,20 @@ def h_exec_release_cancel(sw1, ebp, code, first, two_cancel):
 def h_exec_release_launch(sw1, ebp, cancel, fault):
     """launch errors and late cancels release resources exactly once"""
     _c07.h_launch_vs_cancel(sw1, 0, ebp, 0, cancel, fault, B=1)
+
+
+# ------------------------------------------------------------------------------
+@obligation(params={'sw1': (0, 30), 'sw2': (0, 30), 'bad': (0, 2),
+                    'n': (1, 2), 'pre': 'bool'},
+            shapes={'quick': [{'_ranges': {'sw2': (0, 0)}}], 'thorough': [{}]},
+            partition={'quick': ('sw1', 16), 'thorough': ('sw1', 31)},
+            timeout={'quick': 300, 'thorough': 900},
+            funcs=['radical/pilot/agent/executing/noop.py:NOOP.work',
+                   'radical/pilot/agent/executing/noop.py:NOOP._collect'],
+            bounds='as C07 h_noop (quick: one pre-emption): the NOOP executor '
+                   'publishes exactly one release request per accepted task, '
+                   'whatever the interleaving of intake and collector thread')
+def h_noop_release(sw1, sw2, bad, n, pre):
+    """NOOP executor: every task's resources are given back exactly once"""
+    import harness.c07 as c07
+    c07.h_noop(sw1, sw2, bad, n, pre)
